@@ -26,7 +26,7 @@ std::vector<Pair<T>> div_pairs(uint64_t nrandom, uint64_t seed, bool big) {
         switch (r.next() % 6) {
             case 0: { // largest multiple of d not above max, +-1
                 T q = (T)(mx / d); n = (T)(U)((U)q * (U)d + (U)(r.next() % 3) - 1); break; }
-            case 1: { T q = (T)(mn / d); if (std::is_signed<T>::value && d == (T)-1) q = mx; n = (T)(U)((U)q * (U)d + (U)(r.next() % 3) - 1); break; }
+            case 1: { T q = (std::is_signed<T>::value && d == (T)-1) ? mx : (T)(mn / d); n = (T)(U)((U)q * (U)d + (U)(r.next() % 3) - 1); break; }
             case 2: { // q*d + r for a random quotient of random magnitude
                 U q = (U)r.next() >> (r.next() % bits);
                 n = (T)(U)(q * (U)d + (U)(r.next() % 3) - 1); break; }
@@ -113,9 +113,9 @@ void run(const char* type) {
                        [](T a, T b, T& o) { if (!div_domain(a, b)) return false; o = (T)(a / b); return true; });
     drive_binary<V, T>("C05", type, "rem_op", sub, [](V a, V b) { return avel::to_array(a % b); },
                        [](T a, T b, T& o) { if (!div_domain(a, b)) return false; o = (T)(a % b); return true; });
-    drive_binary<V, T>("C05", type, "quot_assign", sub, [](V a, V b) { V& r = (a /= b); return avel::to_array(r); },
+    drive_binary<V, T>("C05", type, "quot_assign", sub, [](V a, V b) { auto&& r = (a /= b); return avel::to_array(V(r)); },
                        [](T a, T b, T& o) { if (!div_domain(a, b)) return false; o = (T)(a / b); return true; });
-    drive_binary<V, T>("C05", type, "rem_assign", sub, [](V a, V b) { V& r = (a %= b); return avel::to_array(r); },
+    drive_binary<V, T>("C05", type, "rem_assign", sub, [](V a, V b) { auto&& r = (a %= b); return avel::to_array(V(r)); },
                        [](T a, T b, T& o) { if (!div_domain(a, b)) return false; o = (T)(a % b); return true; });
     zero_lane_check<V>(type, pairs);
     (void)sizeof(U);
